@@ -5,8 +5,12 @@ Property theorems only; models: `Model/Query.lean`, `Model/Rdf.lean` (tied to /r
 `harness/c20.py`), helper lemmas: `Proofs/Query.lean`, `Proofs/Rdf.lean`.
 
 Reading guide
-  * `prepareQuery q`   the basic graph pattern of the SPARQL text `QueryCreator` builds
-  * `solutions g pats` nested-loop evaluation of the pattern (validated against rdflib)
+  * `prepareQuery q`   the basic graph pattern of the SPARQL text `QueryCreator` builds; a position
+                       `PT.str s` is a helper variable with `FILTER (STR(?t) = "s")`
+  * `prepareFilters q` the FILTERs of that text on the variables of the rows (`Flt`: node IRI for an
+                       id, member of the value node, type of the terminology node)
+  * `solutions g pats` nested-loop evaluation of the pattern (validated against rdflib);
+    `filtered g pats fs` the solutions that pass the FILTERs
   * `directEval ds q`  rows `(?d, ?s, ?p)` computed on the documents themselves: objects related
                        by direct containment that carry all requested attribute=value pairs
   * `subsets pairs`    the combinations `FuzzyFinder` executes, in execution order
@@ -80,6 +84,56 @@ theorem evalBGP_complete (g : Graph) (pats : List Pat) (b' : Binding)
   obtain ⟨b, e, l⟩ := ext_complete (b := {}) (b' := b') (fun x t hx => by cases x <;> cases hx) h
   exact ⟨b, mem_evalBGP.mpr ⟨{}, by simp, e⟩, l⟩
 
+/-- The FILTERs: a solution of the group is a solution of the basic graph pattern for which
+    every FILTER holds; and what each kind of FILTER says, in terms of the triples of the graph. -/
+theorem filtered_exact (g : Graph) (pats : List Pat) (fs : List Flt) (b : Binding) :
+    b ∈ filtered g pats fs ↔ b ∈ solutions g pats ∧ ∀ f ∈ fs, f.holds g b = true := by
+  simp [filtered, mem_filter, all_eq_true]
+
+/-- `FILTER (STR(?x) = "s")`: the variable is bound to the IRI `s` or to a literal with the
+    lexical form `s` (of any datatype). -/
+theorem filter_strEq_exact (g : Graph) (b : Binding) (x : Var) (s : Str) :
+    (Flt.strEq x s).holds g b = true ↔ ∃ t, b.get x = some t ∧ strOf t = some s := by
+  simp only [Flt.holds]
+  cases h : b.get x <;> simp [h]
+
+/-- `FILTER EXISTS { ?x ?t1 ?t2 . FILTER (STRSTARTS(STR(?t1), "…#_") && STR(?t2) = "s") }`: the node
+    has a member (`rdf:_n`) whose text is `s`. -/
+theorem filter_member_exact (g : Graph) (b : Binding) (x : Var) (s : Str) (n : Term)
+    (hx : b.get x = some n) :
+    (Flt.member x s).holds g b = true ↔
+      ∃ t ∈ g, t.s = n ∧ isMemberPred t.p = true ∧ strOf t.o = some s := by
+  simp only [Flt.holds, boundTo, hx, any_eq_true, Bool.and_eq_true, beq_iff_eq]
+  constructor
+  · rintro ⟨t, ht, ⟨e1, e2⟩, e3⟩; exact ⟨t, ht, e1.symm, e2, e3⟩
+  · rintro ⟨t, ht, e1, e2, e3⟩; exact ⟨t, ht, ⟨e1.symm, e2⟩, e3⟩
+
+/-- `FILTER EXISTS { ?x pred ?t1 . ?t1 rdf:type ?t2 . FILTER (STR(?t2) = "s") }`: the node is linked
+    by `pred` to a node one of whose types has the text `s`. -/
+theorem filter_typedBy_exact (g : Graph) (b : Binding) (x : Var) (pred : Term) (s : Str) (n : Term)
+    (hx : b.get x = some n) :
+    (Flt.typedBy x pred s).holds g b = true ↔
+      ∃ m u, (⟨n, pred, m⟩ : Triple) ∈ g ∧ (⟨m, rdfType, u⟩ : Triple) ∈ g ∧ strOf u = some s := by
+  simp only [Flt.holds, boundTo, hx, any_eq_true, Bool.and_eq_true, beq_iff_eq]
+  constructor
+  · rintro ⟨⟨ts, tp, to⟩, ht, ⟨e1, e2⟩, ⟨us, up, uo⟩, hu, ⟨e3, e4⟩, e5⟩
+    simp only at e1 e2 e3 e4 e5
+    subst e1 e2 e3 e4
+    exact ⟨_, _, ht, hu, e5⟩
+  · rintro ⟨m, u, ht, hu, e⟩
+    exact ⟨_, ht, ⟨rfl, rfl⟩, _, hu, ⟨rfl, rfl⟩, e⟩
+
+/-- An `id` pair of any kind of object adds no triple pattern, only the FILTER on the node of the
+    object, and that FILTER selects exactly the node the writer names with that id
+    (`URIRef(ODML_NS + str(obj.id))`) - all ids, all graphs, all bindings. -/
+theorem id_pair_exact (k : Kind) (v : Str) (vs : List Str) (g : Graph) (b : Binding) (i : Str)
+    (hx : b.get (varOf k) = some (node i)) :
+    attrPat ⟨k, "id".toList, v, vs⟩ = .ok [] ∧
+    attrFlt ⟨k, "id".toList, v, vs⟩ = [.strEq (varOf k) (ns ++ v)] ∧
+    ((Flt.strEq (varOf k) (ns ++ v)).holds g b = true ↔ i = v) := by
+  refine ⟨by cases k <;> rfl, by cases k <;> rfl, ?_⟩
+  simp [Flt.holds, hx, node, strOf]
+
 /-! ## 3. Combinations -/
 
 /-- **Match mode executes every non-empty combination**: the executed queries are exactly the
@@ -138,21 +192,16 @@ theorem fuzzy_equals_match_on_pairs (g : Graph) (f : FParams) :
 
 /-! ## 4. Soundness and completeness of the generated queries -/
 
-/-- The full-strength statement: on the export of any document set, the rows of the generated
-    query are exactly the rows of the direct evaluation. -/
-def query_sound_complete_statement : Prop :=
-  ∀ (ds : List DocT) (q : QParams), WFDocs ds → RdfRepr ds →
-    ∀ pats, prepareQuery q = .ok pats →
-    ∀ row, row ∈ (solutions (exportRdf ⟨false, []⟩ ds) pats).map (fun b => (b.d, b.s, b.p)) ↔
-      row ∈ directEval ds q
-
 def dS : DocT :=
-  ⟨"d1".toList, [("author", .str "me".toList)], none,
+  ⟨"d1".toList, [("author", .str "me".toList), ("date", .date "2020-01-02".toList)], none,
    [.mk "s1".toList [("name", .str "s".toList), ("type", .str "t".toList)]
-     [⟨"p1".toList, [("name", .str "s".toList), ("unit", .str "mV".toList)], []⟩] []]⟩
+     [⟨"p1".toList, [("name", .str "s".toList), ("unit", .str "mV".toList),
+                     ("uncertainty", .float "0.5".toList)], []⟩] []]⟩
 def qS : QParams :=
-  ⟨[⟨.doc, "author".toList, "me".toList, []⟩], [⟨.sec, "name".toList, "s".toList, []⟩],
-   [⟨.prop, "name".toList, "s".toList, []⟩, ⟨.prop, "unit".toList, "mV".toList, []⟩]⟩
+  ⟨[⟨.doc, "author".toList, "me".toList, []⟩, ⟨.doc, "date".toList, "2020-01-02".toList, []⟩],
+   [⟨.sec, "name".toList, "s".toList, []⟩],
+   [⟨.prop, "name".toList, "s".toList, []⟩, ⟨.prop, "unit".toList, "mV".toList, []⟩,
+    ⟨.prop, "uncertainty".toList, "0.5".toList, []⟩]⟩
 
 /-- What the queries need of the regenerated tables. -/
 theorem query_tables_ok : QTablesOK where
@@ -170,16 +219,36 @@ theorem query_tables_ok : QTablesOK where
   propIri := by decide
   typesDistinct := by decide
 
-/-- **Sound and complete** on exports without repositories, for queries over the string-valued
-    attributes (`QuerySafe`: Document author/version; Section name/type/definition/reference;
-    Property name/definition/dtype/unit/reference/value_origin), of one kind or spanning kinds:
-    a row `(?d, ?s, ?p)` is returned iff its objects are related by direct containment and carry
-    all requested values — none that lacks one, none missing. -/
+/-- **Sound and complete** on exports without repositories, for queries over the attributes of
+    `QuerySafe` (Document author/version/date; Section name/type/definition/reference; Property
+    name/definition/dtype/unit/reference/value_origin/uncertainty - the string-valued ones and the
+    two that are exported as typed literals), of one kind or spanning kinds: a row `(?d, ?s, ?p)`
+    is returned iff its objects are related by direct containment and carry all requested values
+    — none that lacks one, none missing. -/
 theorem query_sound_complete (ds : List DocT) (q : QParams) (wf : WFDocs ds) (r : RdfRepr ds)
     (nr : NoRepo ds) (safe : QuerySafe q) (row : Row) :
     ∃ rows, queryRows (exportRdf ⟨false, []⟩ ds) q = .ok rows ∧
       (row ∈ rows ↔ row ∈ directEval ds q) :=
   Query.sound_complete query_tables_ok ds q wf r nr safe row
+
+/-- **A value pair is exact** on the export (no sub-classing, no repositories) of every well-formed
+    document set: its FILTERs are one membership test of the value node per searched value, and
+    with `?v` bound to the value node of a Property they all hold iff every searched value is the
+    text of one of the values of that Property (`carriesValues`, the clause of `directEval`) -
+    whatever the datatype of the exported literals, at whatever position. -/
+theorem value_pair_exact (ds : List DocT) (wf : WFDocs ds) (nr : NoRepo ds) (p : PropT)
+    (hp : p ∈ docProps ds) (b : Binding) (hb : b.get .v = some (.seqn p.id)) (v : Str) (vs : List Str) :
+    attrFlt ⟨.prop, "value".toList, v, vs⟩ = vs.map (Flt.member .v) ∧
+    ((∀ f ∈ attrFlt ⟨.prop, "value".toList, v, vs⟩, f.holds (exportRdf ⟨false, []⟩ ds) b = true) ↔
+      carriesValues p ⟨.prop, "value".toList, v, vs⟩ = true) := by
+  have h1 : attrFlt ⟨.prop, "value".toList, v, vs⟩ = vs.map (Flt.member .v) := rfl
+  refine ⟨h1, ?_⟩
+  rw [h1]
+  simp only [mem_map, forall_exists_index, and_imp, forall_apply_eq_imp_iff₂, carriesValues,
+    all_eq_true, any_eq_true, beq_iff_eq]
+  refine forall_congr' (fun s => forall_congr' (fun _ => ?_))
+  exact Query.value_filter_exact query_tables_ok wf nr hp
+    ⟨String.ofList (ns ++ "hasValue".toList), by decide⟩ b hb s
 
 /-- The hypotheses are satisfiable, with a query spanning all three kinds that has a hit. -/
 example : WFDocs [dS] ∧ RdfRepr [dS] ∧ NoRepo [dS] ∧ QuerySafe qS ∧
@@ -187,63 +256,71 @@ example : WFDocs [dS] ∧ RdfRepr [dS] ∧ NoRepo [dS] ∧ QuerySafe qS ∧
   ⟨wfDocs_of_B (by decide), rdfRepr_of_B (by decide),
    noRepo_of_B (by decide), querySafe_of_B (by decide), by decide⟩
 
-/-! ## 5. Witnesses of the defects that remain (known findings) -/
+/-! ## 5. The other shapes of a query (repaired findings): typed literals, values, id, repository
+
+Until the `fix:` commits eb38590, 573e2b8, 57076b7 every one of these queries returned no row
+(plain string literal against a typed one; `rdf:Bag` / `rdf:li` against `rdf:Seq` / `rdf:_n`;
+a `hasId` triple that is never written; the repository URL as a literal).  The witnesses of the
+former counterexample theorems now find their objects, and only them. -/
 
 def dW : DocT :=
-  ⟨"d1".toList, [("author", .str "me".toList), ("date", .date "2020-01-02".toList)], none,
-   [.mk "s1".toList [("name", .str "s".toList), ("type", .str "t".toList)]
+  ⟨"d1".toList, [("author", .str "me".toList), ("date", .date "2020-01-02".toList),
+                 ("repository", .str "http://x.org/t.xml".toList)], none,
+   [.mk "s1".toList [("name", .str "s".toList), ("type", .str "t".toList),
+                     ("repository", .str "http://x.org/s.xml".toList)]
      [⟨"p1".toList, [("name", .str "p".toList), ("dtype", .str "int".toList),
-                     ("uncertainty", .float "0.5".toList)], [⟨"20".toList, xsdInteger⟩]⟩] []]⟩
+                     ("uncertainty", .float "0.5".toList)], [⟨"20".toList, xsdInteger⟩, ⟨"25".toList, xsdInteger⟩]⟩,
+      ⟨"p2".toList, [("name", .str "q".toList)], [⟨"x".toList, []⟩]⟩] [],
+    .mk "s2".toList [("name", .str "s2".toList), ("type", .str "t".toList)] [] []]⟩
 
-example : WFDocs [dW] ∧ RdfRepr [dW] := ⟨wfDocs_of_B (by decide), rdfRepr_of_B (by decide)⟩
+def dW2 : DocT := ⟨"d2".toList, [("author", .str "you".toList)], none, []⟩
 
-/-- Typed literals never match: the Document carries the date, the query finds nothing. -/
-theorem typed_literal_never_matches_counterexample :
-    let q : QParams := ⟨[⟨.doc, "date".toList, "2020-01-02".toList, []⟩], [], []⟩
-    queryRows (exportRdf ⟨false, []⟩ [dW]) q = .ok [] ∧
-    (some (node "d1".toList), none, none) ∈ directEval [dW] q := by
-  constructor
-  · rfl
-  · decide
+example : WFDocs [dW, dW2] ∧ RdfRepr [dW, dW2] :=
+  ⟨wfDocs_of_B (by decide), rdfRepr_of_B (by decide)⟩
 
-/-- Value queries ask for `rdf:Bag` / `rdf:li`, the writer emits `rdf:Seq` / `rdf:_n`. -/
-theorem value_query_never_matches_counterexample :
-    let q : QParams := ⟨[], [], [⟨.prop, "value".toList, [], ["20".toList]⟩]⟩
-    queryRows (exportRdf ⟨false, []⟩ [dW]) q = .ok [] ∧
-    (none, some (node "s1".toList), some (node "p1".toList)) ∈ directEval [dW] q := by
-  constructor
-  · rfl
-  · decide
+/-- Typed literals match by their text: the Document that carries the date is found (and not the
+    other one); a date nobody carries finds nothing. -/
+theorem typed_literal_query_matches :
+    queryRows (exportRdf ⟨false, []⟩ [dW, dW2]) ⟨[⟨.doc, "date".toList, "2020-01-02".toList, []⟩], [], []⟩
+      = .ok [(some (node "d1".toList), none, none)] ∧
+    queryRows (exportRdf ⟨false, []⟩ [dW, dW2]) ⟨[], [], [⟨.prop, "uncertainty".toList, "0.5".toList, []⟩]⟩
+      = .ok [(none, some (node "s1".toList), some (node "p1".toList))] ∧
+    queryRows (exportRdf ⟨false, []⟩ [dW, dW2]) ⟨[⟨.doc, "date".toList, "2020-01-03".toList, []⟩], [], []⟩
+      = .ok [] := by
+  refine ⟨?_, ?_, ?_⟩ <;> rfl
 
-/-- The id is never exported as `hasId`, so a search by id finds nothing. -/
-theorem id_never_matches_counterexample :
-    let q : QParams := ⟨[⟨.doc, "id".toList, "d1".toList, []⟩], [], []⟩
-    queryRows (exportRdf ⟨false, []⟩ [dW]) q = .ok [] := by
-  rfl
+/-- Value queries find the Property that holds every searched value, whatever the datatype of the
+    exported literal; a Property that lacks one of them is not found. -/
+theorem value_query_matches :
+    queryRows (exportRdf ⟨false, []⟩ [dW, dW2]) ⟨[], [], [⟨.prop, "value".toList, [], ["25".toList, "20".toList]⟩]⟩
+      = .ok [(none, some (node "s1".toList), some (node "p1".toList))] ∧
+    queryRows (exportRdf ⟨false, []⟩ [dW, dW2]) ⟨[], [], [⟨.prop, "value".toList, [], ["x".toList]⟩]⟩
+      = .ok [(none, some (node "s1".toList), some (node "p2".toList))] ∧
+    queryRows (exportRdf ⟨false, []⟩ [dW, dW2]) ⟨[], [], [⟨.prop, "value".toList, [], ["20".toList, "x".toList]⟩]⟩
+      = .ok [] := by
+  refine ⟨?_, ?_, ?_⟩ <;> rfl
 
-/-- Hence the full-strength statement is false of the model (and of the code). -/
-theorem query_sound_complete_counterexample : ¬ query_sound_complete_statement := by
-  intro st
-  have h := st [dW] ⟨[⟨.doc, "date".toList, "2020-01-02".toList, []⟩], [], []⟩
-    (wfDocs_of_B (by decide)) (rdfRepr_of_B (by decide)) _ rfl (some (node "d1".toList), none, none)
-  have h2 : (some (node "d1".toList), (none : Option Term), (none : Option Term)) ∈
-      directEval [dW] ⟨[⟨.doc, "date".toList, "2020-01-02".toList, []⟩], [], []⟩ :=
-    typed_literal_never_matches_counterexample.2
-  have h3 := h.mpr h2
-  have e : ∀ pats, prepareQuery ⟨[⟨.doc, "date".toList, "2020-01-02".toList, []⟩], [], []⟩ = .ok pats →
-      solutions (exportRdf ⟨false, []⟩ [dW]) pats = [] := by
-    intro pats hp
-    have : pats = [⟨.var .d, .const rdfType, .const (odmlIri "Document")⟩,
-       ⟨.var .d, .const (.iri "https://g-node.org/odml-rdf#hasDate".toList),
-        .const (.lit "2020-01-02".toList [])⟩] := by
-      have h0 : prepareQuery ⟨[⟨.doc, "date".toList, "2020-01-02".toList, []⟩], [], []⟩ = .ok
-          [⟨.var .d, .const rdfType, .const (odmlIri "Document")⟩,
-           ⟨.var .d, .const (.iri "https://g-node.org/odml-rdf#hasDate".toList),
-            .const (.lit "2020-01-02".toList [])⟩] := rfl
-      rw [h0] at hp; cases hp; rfl
-    subst this
-    rfl
-  rw [e _ rfl] at h3
-  simp at h3
+/-- A search by id finds the object with that id. -/
+theorem id_query_matches :
+    queryRows (exportRdf ⟨false, []⟩ [dW, dW2]) ⟨[⟨.doc, "id".toList, "d2".toList, []⟩], [], []⟩
+      = .ok [(some (node "d2".toList), none, none)] ∧
+    queryRows (exportRdf ⟨false, []⟩ [dW, dW2]) ⟨[], [⟨.sec, "id".toList, "s2".toList, []⟩], []⟩
+      = .ok [(some (node "d1".toList), some (node "s2".toList), none)] ∧
+    queryRows (exportRdf ⟨false, []⟩ [dW, dW2])
+        ⟨[], [⟨.sec, "id".toList, "s1".toList, []⟩], [⟨.prop, "id".toList, "p2".toList, []⟩]⟩
+      = .ok [(some (node "d1".toList), some (node "s1".toList), some (node "p2".toList))] ∧
+    queryRows (exportRdf ⟨false, []⟩ [dW, dW2]) ⟨[⟨.doc, "id".toList, "s1".toList, []⟩], [], []⟩
+      = .ok [] := by
+  refine ⟨?_, ?_, ?_, ?_⟩ <;> rfl
+
+/-- A search by repository finds the objects whose own repository is that URL. -/
+theorem repository_query_matches :
+    queryRows (exportRdf ⟨false, []⟩ [dW, dW2]) ⟨[⟨.doc, "repository".toList, "http://x.org/t.xml".toList, []⟩], [], []⟩
+      = .ok [(some (node "d1".toList), none, none)] ∧
+    queryRows (exportRdf ⟨false, []⟩ [dW, dW2]) ⟨[], [⟨.sec, "repository".toList, "http://x.org/s.xml".toList, []⟩], []⟩
+      = .ok [(some (node "d1".toList), some (node "s1".toList), none)] ∧
+    queryRows (exportRdf ⟨false, []⟩ [dW, dW2]) ⟨[], [⟨.sec, "repository".toList, "http://x.org/t.xml".toList, []⟩], []⟩
+      = .ok [] := by
+  refine ⟨?_, ?_, ?_⟩ <;> rfl
 
 end C20
